@@ -128,6 +128,16 @@ def c11_reference(n, arcs):
                 minimal = exp and all(not dsep_paths(n, arcs, x, y, set(Z) - {z}) for z in Z)
                 if g.is_minimally_d_separated(N[x], N[y], {N[z] for z in Z}) != minimal:
                     return f'is_minimally_d_separated({N[x]!r},{N[y]!r},{[N[z] for z in Z]}) differs from "separates and no node can be removed" ({minimal})'
+                for form, args in (('Node objects everywhere', (g.get_node(N[x]), g.get_node(N[y]), {g.get_node(N[z]) for z in Z})),
+                                   ('list of Node objects as the set', (N[x], N[y], [g.get_node(N[z]) for z in Z])),
+                                   ('tuple of identifiers as the set', (N[x], N[y], tuple(N[z] for z in Z)))):
+                    try:
+                        r1, r2 = bool(g.is_d_separated(*args)), bool(g.is_minimally_d_separated(*args))
+                    except Exception as e:  # noqa: BLE001
+                        return f'd-separation query ({N[x]!r},{N[y]!r},{[N[z] for z in Z]}) given as {form} raised {type(e).__name__}: {e}'
+                    if r1 != exp or r2 != minimal:
+                        return (f'({N[x]!r},{N[y]!r},{[N[z] for z in Z]}) given as {form}: is_d_separated = {r1} (definition {exp}), '
+                                f'is_minimally_d_separated = {r2} (definition {minimal})')
     return None
 
 
